@@ -359,6 +359,8 @@ type Directive struct {
 	Comment *Comment `json:"comment,omitempty"`
 	CSep    string   `json:"csep,omitempty"`
 	Fmt     *Fmt     `json:"fmt,omitempty"` // commodity, commodity-sub (format subdirective), D
+	SubSep  string   `json:"subsep,omitempty"`  // commodity-sub: what stands between "format" and its value ("" = one blank)
+	SubNote string   `json:"subnote,omitempty"` // commodity-sub: a "note ..." subdirective line (written as is) before the format line
 	Sym     string   `json:"sym,omitempty"` // commodity without format, P
 	Path    string   `json:"path,omitempty"`
 	Date    *Date    `json:"date,omitempty"`
@@ -641,10 +643,22 @@ func renderDirective(r *Rendered, d *Directive, ei int, line *int, emit func(*li
 			feats["commodity.quoted"] = true
 		}
 		emit(b, LineInfo{"directive", ei, -1})
+		if d.SubNote != "" {
+			bn := &lineBuf{r: r, line: *line, entry: ei, post: -1}
+			bn.w(d.Indent)
+			bn.w(d.SubNote)
+			feats["dir.subdirective-note"] = true
+			emit(bn, LineInfo{"subdirective", ei, -1})
+		}
 		b2 := &lineBuf{r: r, line: *line, entry: ei, post: -1}
 		b2.w(d.Indent)
 		b2.span("keyword", "format")
-		b2.w(" ")
+		if d.SubSep != "" {
+			b2.w(d.SubSep)
+			feats["dir.subdirective-tab"] = true
+		} else {
+			b2.w(" ")
+		}
 		renderFmt(b2, d.Fmt)
 		emit(b2, LineInfo{"subdirective", ei, -1})
 	case "include":
